@@ -288,8 +288,11 @@ pub fn sched(out: &mut Out, rng: &mut Rng, count: usize, exhaustive_below: usize
     witness_buffered_eof(out, &mut n);
     sched_capacity_edges(out, &mut n);
     for i in 0..count {
-        let s = pick_schema(rng, i);
-        let doc = small_doc(rng, &s, if i % 6 == 0 { 40 } else { 8 }, i % 3 == 0);
+        // every seventh case: ids of 5-8 bytes and 8-byte size fields - headers of 13-16 bytes, more than half of the look-ahead
+        let long = i % 7 == 6;
+        let s = if long { gen::rand_schema(rng, &gen::SchemaOpts { wide_ids: true, globals: i % 3 != 0, max_depth: 4 }) } else { pick_schema(rng, i) };
+        let doc = if long { gen::rand_doc(rng, &s, &DocOpts { max_tags: 8, long_headers: true, unk_prob: (if i % 3 == 0 { 1 } else { 0 }, 3), ..Default::default() }) }
+                  else { small_doc(rng, &s, if i % 6 == 0 { 40 } else { 8 }, i % 3 == 0) };
         let mut bytes = gen::encode_doc(&doc);
         match i % 5 { 1 => mutate(rng, &mut bytes), 2 => { let l = rng.below(bytes.len() + 1); bytes.truncate(l); } _ => {} }
         if bytes.len() > 2048 { continue; }
